@@ -8,13 +8,13 @@ HERE = os.path.dirname(os.path.dirname(os.path.abspath(__file__)))
 # id -> (category, technique, level text, level note, design ref)
 CLAIMS = {
     "C01": ("exploration", "bounded exhaustive input enumeration on the real API over a socketpair + frame monitor",
-            "every frame written by every operation of both APIs, swept over each byte of id/key/session/clock, every IR text length 1..2000 and names over 1-4 byte code points, is checked for magic, length, terminator and an independently computed double CRC",
+            "every frame written by every operation of both APIs (19 shapes), swept over each byte of id/key/session/clock, every IR text length 1..2000, names over 1-4 byte code points and combining marks, C02's argument sweep, and - after a good login - every later step answered with truncated/corrupted/empty/over-long replies, is checked for magic, length, terminator and an independently computed double CRC",
             "socketpair stands in for TCP; stream transport, binascii and struct are trusted; argument interactions beyond per-field sweeps and corner pairs are not enumerated", "5/C01"),
     "C02": ("exploration", "bounded exhaustive input enumeration against a table-driven reference frame layout",
-            "every command frame is decoded by an independent layout table and compared with the caller's arguments over full per-field domains; rejected arguments must raise with only the login frame written",
+            "every command frame is compared byte for byte with the frame an independent reference encoder builds from the caller's arguments, over full per-field domains, positional and keyword calls, device-id bytes and six DST zones for schedules; rejected arguments must raise with at most the login frame written",
             "fixed bytes of templates no repository test pins are a transcription of the pinned tree (regression oracle)", "5/C02"),
     "C03": ("model_checking", "stateless exploration of operation sequences and of all reply-order interleavings of two API instances on a controlled asyncio loop, plus BFS with state hashing",
-            "all operation sequences to the stated depth and all interleavings of two instances' exchanges are executed on the real client; each connection's frame log is checked against the login-then-commands session model",
+            "all operation sequences to depth 3 (thorough 5) incl. failing and aborted variants, the same with a frozen clock and in non-UTC zones, and all reply-order interleavings of two instances (same and different host) are executed on the real client; each connection's frame log is checked against the login-then-commands session model; the state graph over (object state, module-state digest) closes",
             "deterministic single-threaded asyncio; the only scheduling freedom is which pending read is answered next; state outside the fingerprint (closures, C objects) is covered only to the stateless depth", "5/C03"),
     "C04": ("model_checking", "explicit-state enumeration of the CRC-16 automaton (65,536 states x 256 inputs) replayed through the real signer, closed by induction on length",
             "all strings of length 0..2 reach every CRC state; every transition from every state is replayed through the real signer (thorough), which covers all byte strings by induction",
@@ -40,7 +40,7 @@ CLAIMS = {
     "C11": ("exploration", "bounded exhaustive input enumeration: all 1440 minutes x zones x dates under a virtual clock",
             "every minute of the day in every listed zone on every listed date is encoded and decoded under a pinned clock and the epoch value compared with zoneinfo",
             "time-machine pins time.time/localtime/strftime; zones via TZ+tzset", "5/C11"),
-    "C12": ("exploration", "complete enumeration of the finite input space",
+    "C12": ("exploration", "complete enumeration of the finite input space (plus second-use probes and a python -O pass)",
             "all 127 subsets in every accepted form, all sequences of length <=3, all masks -1..256: the space is finite and enumerated completely",
             "odd masks are not judged", "5/C12"),
     "C13": ("exploration", "bounded exhaustive input enumeration: weekdays x day sets x minute grid x zones under a virtual clock",
@@ -54,13 +54,13 @@ CLAIMS = {
     "C16": ("model_checking", "stateless exploration of the thermostat control exchange: reported states x requests x remote kinds x update flag x EOF at each step",
             "every path of the login/get-state/command/swing exchange is executed against a fake device and the frames decoded and compared with the merge model; an empty reply at every step must not report success",
             "socketpair stands in for TCP; requests deviate from a base in quick, full product in thorough", "5/C16"),
-    "C17": ("model_checking", "stateless exploration of all action sequences to a depth + BFS with state hashing to a fixpoint on real UDP sockets",
-            "all sequences over start/stop/send/occupy/release/context actions are executed on a real bridge with real sockets; after every action is_running, port bindability and callback delivery are compared with the lifecycle model",
+    "C17": ("model_checking", "stateless exploration of all action sequences to a depth + BFS with state hashing to a fixpoint on real UDP sockets + TLC-checked TLA+ model with every edge replayed on the implementation",
+            "all enabled sequences over start/stop/send/occupy/release/context actions (bodies raising three kinds of exception) are executed on a real bridge with real sockets; after every action is_running, port bindability and probe delivery are compared with the lifecycle model; BFS to a fixpoint; a TLA+ model checked by TLC with every edge of its state graph replayed on the bridge; in-flight datagrams for every delay before stop; twin bridges (disjoint and shared port); unusable port numbers",
             "ports are private to the harness (flock-ed block outside the ephemeral range)", "5/C17"),
-    "C18": ("model_checking", "stateless exploration of all action sequences to a depth + BFS with state hashing to a fixpoint on a controlled loop",
-            "all sequences over connect/refused/ops/failures/drop/disconnect for both APIs are executed on the real client; after every action the connected flag and the device-side EOF are compared with the lifecycle model",
+    "C18": ("model_checking", "stateless exploration of all action sequences to a depth + BFS with state hashing to a fixpoint on a controlled loop + TLC-checked TLA+ model with every edge replayed on the implementation",
+            "all enabled sequences over 12 actions (connect, refused, three operations, four context bodies, refused context, device drop, disconnect) for both API classes are executed on the real client; after every action the connected flag and the device-side end-of-stream are compared with the lifecycle model; BFS to a fixpoint; a TLA+ model checked by TLC with every edge replayed on the client; twin clients; a real-TCP subset",
             "socketpair stands in for TCP except in the real-TCP subset of the thorough tier", "5/C18"),
-    "C19": ("exploration", "complete enumeration of the finite table space",
+    "C19": ("exploration", "complete enumeration of the finite table space (three construction styles, four rounds, a python -O pass)",
             "all 9 types x 4 classes and every category in both port tables are enumerated", "none", "5/C19"),
 }
 
